@@ -199,8 +199,10 @@ Definition simplifier_init_samples (num_nodes : Z) (samples : list Z) : res (lis
    tsk_table_collection_simplify (l.12078-12083) and tsk_table_collection_link_ancestors
    (l.12130-12133) refuse edge metadata; ancestor_mapper_init (l.8035) refuses empty lists;
    tsk_table_collection_subset refuses migrations (l.13022) after the node loop *)
-Definition simplify_entry (has_edge_metadata : bool) (num_nodes : Z) (samples : list Z) : res (list Z) :=
-  if has_edge_metadata then Err E_LIBRARY else simplifier_init_samples num_nodes samples.
+(* [unsupported] = edge metadata present, or a non-empty migration table
+   (TSK_ERR_SIMPLIFY_MIGRATIONS_NOT_SUPPORTED) *)
+Definition simplify_entry (unsupported : bool) (num_nodes : Z) (samples : list Z) : res (list Z) :=
+  if unsupported then Err E_LIBRARY else simplifier_init_samples num_nodes samples.
 
 Definition link_ancestors_entry (strict_samples strict_ancestors has_edge_metadata : bool) (num_nodes : Z)
            (samples ancestors : list Z) : res (list Z * list Z) :=
